@@ -440,7 +440,10 @@ func readSourceIntentionsFromConfigEntriesForServiceTxn(
 		}
 
 		for _, src := range entry.Sources {
-			if src.SourceServiceName() == sn {
+			// The index only finds entries through their LOCAL sources (ServiceIntentionSourceIndex);
+			// a peered or sameness-group source that merely shares the service name is a different
+			// source and must not be reported as matching the local service.
+			if src.Peer == "" && src.SamenessGroup == "" && src.SourceServiceName() == sn {
 				canAdd, err := intentionMatches(targetType, kind, entry.HasWildcardDestination())
 				if err != nil {
 					return nil, err
